@@ -302,6 +302,37 @@ def build(S, tier):
         S.prove(f"{label}#frame.only_protocol_members_touched@{i}", not [e for e in p.value["log"] if e[0].startswith("foreign") or e[0] in PROBES], kind="frame",
                 why=str([e for e in p.value["log"] if e[0].startswith("foreign") or e[0] in PROBES][:4]))
 
+    # the user puts ANOTHER move object under an existing name after the driver has already notified the old one (the table keeps its
+    # size): the next accepted change of the atom count reaches the object that is in the table now, and only that one
+    def run_replaced_move(I):
+        log, log2 = [], []
+        sim, move, crit, atoms = setup(I, "quansino.mc.gcmc.GrandCanonical", {}, [], [], log)
+        ctx = sim.attrs["context"]
+        ctx.attrs["_added_indices"], ctx.attrs["_deleted_indices"] = ("added-index-set-1",), ("deleted-index-set-1",)
+        I.call(I.getattr(sim, "save_state"), [], {})
+        move2 = Strict("move", protocol_members(I, "Move"), log2)
+        I.call(I.getattr(sim, "add_move"), [move2], {"criteria": crit, "name": "user"})
+        n1, n2 = len(log), len(log2)
+        ctx.attrs["_added_indices"], ctx.attrs["_deleted_indices"] = ("added-index-set-2",), ("deleted-index-set-2",)
+        I.call(I.getattr(sim, "save_state"), [], {})
+        return dict(old=log[n1:], new=log2[n2:], in_table=sim.attrs["moves"]["user"].attrs.get("move") is move2)
+
+    label = "GrandCanonical.save_state[after the move under a name was replaced by another object]"
+    for i, p in enumerate(S.explore(run_replaced_move, label)):
+        S.adopt(p, prefix=label + ":")
+        if p.status == "unsupported":
+            continue
+        if p.status != "return":
+            S.prove(f"{label}#noraise@{i}", False, kind="noraise", why=f"raises {p.exc!r}")
+            continue
+        v = p.value
+        new = [e for e in v["new"] if e[:2] == ("move", "on_atoms_changed")]
+        old = [e for e in v["old"] if e[:2] == ("move", "on_atoms_changed")]
+        S.prove(f"{label}#ensures.the_move_in_the_table_is_the_new_object@{i}", v["in_table"], kind="ensures")
+        S.prove(f"{label}#ensures.the_move_now_in_the_table_is_notified_once_with_the_current_index_sets@{i}",
+                len(new) == 1 and tuple(new[0][2]) == (("added-index-set-2",), ("deleted-index-set-2",)), kind="ensures", why=str(new))
+        S.prove(f"{label}#ensures.the_replaced_move_is_no_longer_notified@{i}", old == [], kind="ensures", why=str(old))
+
     # ------------------------------------------------------------------ default-criteria lookup is the only isinstance probe
     def run_default(I):
         log = []
